@@ -624,6 +624,8 @@ class Gen(object):
             return Fl(1, 2 ** 27)
         if abs(p) >= 10000:
             return Fl(p + 1, q) if q == 1 else None
+        if (p, q) == (1, 1) and self.rng.random() < 0.5:
+            return Fl(2 ** 30 + 1, 2 ** 30)                   # inside math.isclose's default rel_tol, too
         f = Fraction(p, q) * (1 + Fraction(1, 2 ** 17))
         return Fl(f.numerator, f.denominator)
 
@@ -939,13 +941,23 @@ def run(ctx):
                 'with None / NaN / NaT in the same position - whose value is Norm(descriptor); what the statement pins is a function of the '
                 'values alone. Mechanism models inside TLC: the recursion on realisations agrees with the law, three shortcuts that look at '
                 'the realisation (insertion-ordered dict comparison, same-buffer-same-layout, pandas equals) are refuted. '
+                'A third block holds look-alikes that Python\'s == / numpy\'s tolerant comparisons would let through: container-type '
+                'mismatches below the top level (dict vs dict subclass, number vs 0-d / one-cell array inside lists, dict values, tuples) '
+                'and numbers that are close but not equal (1e6 / 1e6+1, 1 / 1+2^-17, 0 / 2^-27) in every carrier of floats. '
+                'MC_EqHist: a state machine over live mutable objects (list, dict, dict subclass, ndarray, two views of one buffer, Series, '
+                'DataFrame) with the in-place writes x[k] = v, x.index / x.columns = .., d[k] = d.pop(k), append, pop; the answer expected '
+                'from a call is what the statement pins for the CURRENT descriptors; an identity-keyed memo of earlier answers is refuted. '
                 'S2C: every TLC-enumerated pair of descriptors realised as Python values IN ONE WORLD (views of one buffer number share '
-                'memory between the operands), eq compared with what the statement pins; in_ on TLC-enumerated (value, sequence). '
+                'memory between the operands), eq compared with what the statement pins; in_ on TLC-enumerated (value, sequence); every '
+                'TLC-enumerated history call - write - call (- write - call) replayed on real objects, each write read back and compared with '
+                'the descriptor TLC computed, each call compared with what is pinned at that moment. '
                 'C2S: full matrix eq(x, y) over TLC\'s universe + hand-picked corners + seeded random nestings (random insertion orders, '
                 'views into shared pool buffers, re-ordered / re-housed / other-missing-marker variants of each random value), each '
                 'with a structural copy (values holding views: a second view object on the same memory and a copy in other memory), '
                 'validated cell by cell (boolean, reflexive on copies and on other realisations, symmetric, transitive over '
-                'every third value, pinned answers) by Trace_Eq. Non-trivial = a pair of different non-scalar objects that are equal '
+                'every third value, pinned answers) by Trace_Eq; seeded random histories of in-place writes on random values and their copies, '
+                'every call logged with the descriptors the two objects project to at that moment and judged against what is pinned for those. '
+                'Non-trivial = a pair of different non-scalar objects that are equal '
                 '(C2S) or a pair of different descriptors whose answer is pinned (S2C).')
     ctx.mc('MC_Eq', 'MC_Eq_quick.cfg' if ctx.quick else 'MC_Eq_thorough.cfg')
     ctx.mc('MC_Eq', 'MC_Eq_in.cfg' if ctx.quick else 'MC_Eq_in_thorough.cfg')
@@ -982,6 +994,9 @@ def run(ctx):
         'pd.NaT (the one object, held in lists / tuples / dicts / object-dtype arrays, Series, frames) is a scalar of the universe: equal '
         'to itself, different from None and every other value; whether it counts as a NaN is not pinned (named deviation NaTIsMissing); '
         'np.datetime64("NaT") and NaT cells of datetime64 arrays are outside the universe',
+        'numbers are compared exactly, without tolerance (rationals in lowest terms, |numerator|, denominator < 2^31)',
+        'eq speaks of the values its operands have at the moment of the call: an object written to in place is another value of the '
+        'universe (writes: item / cell / label / re-inserted key / append / pop; a write through a view is seen by the other views of the buffer)',
         'small scope: MC / S2C on the fixed abstract universe of spec/MC_Eq.tla; C2S on the values actually built (seeded)',
     ]
 
